@@ -642,7 +642,7 @@ example :
   decide +kernel
 
 /-- every node of the profile is connected to the base level `0` (walk down the chain) -/
-theorem prConnBase : ∀ y, y < prEnv.topo.n → prEnv.mask y = false →
+theorem prConnBase19 : ∀ y, y < prEnv.topo.n → prEnv.mask y = false →
     ∃ bl, bl < prEnv.topo.n ∧ prEnv.mask bl = false ∧ prEnv.isBase bl = true ∧
       NConn prEnv.topo prEnv.mask y bl := by
   intro y hy _
@@ -672,7 +672,7 @@ example (carve : Bool) :
       prEnv.mask prEnv.isBase).pits = [] :=
   (profile_C19_resolve (fun x _ => x) (fun x => x) (fun x => x + 1) (-1000) 1000 (1/1000)
     4 (by decide) (1/2) false prDx prLo prEnv rfl false prZ [0] 0 carve exNu prWork prValid
-    prFin).2.2.2.2.2.2.2.2.2.2.2 prConnBase
+    prFin).2.2.2.2.2.2.2.2.2.2.2 prConnBase19
 
 /-! A profile cut in two by a masked node: the basin `{3, 4}` cannot reach the base level `0`, no
 pass is found, the resolver leaves the pit `4` — clause 8 says this is the only way a pit survives. -/
